@@ -493,6 +493,19 @@ func (e *Engine) installSpecObjs(pkg *types.Package) {
 		}
 	}
 	{
+		// ret0/ret1/ret2[T any](call returning several values) T -- one component of a multi-value call
+		for _, nm := range []string{"ret0", "ret1", "ret2"} {
+			tn := types.NewTypeName(token.NoPos, pkg, "T", nil)
+			tp := types.NewTypeParam(tn, types.NewInterfaceType(nil, nil))
+			sig := types.NewSignatureType(nil, nil, []*types.TypeParam{tp},
+				types.NewTuple(types.NewVar(token.NoPos, pkg, "xs", types.NewSlice(anyT))),
+				types.NewTuple(types.NewVar(token.NoPos, pkg, "", tp)), true)
+			fn := types.NewFunc(token.NoPos, pkg, nm, sig)
+			sc.Insert(fn)
+			e.specObjs[fn] = nm
+		}
+	}
+	{
 		// has[K comparable, V any](m map[K]V, k K) bool  -- map membership
 		kn := types.NewTypeName(token.NoPos, pkg, "K", nil)
 		kp := types.NewTypeParam(kn, types.Universe.Lookup("comparable").Type())
